@@ -5,19 +5,11 @@ package main
 
 import (
 	"bytes"
-	"encoding/hex"
 	"fmt"
 
 	"github.com/NethermindEth/juno/db/dbutils"
 	"verif/harness/lib"
 )
-
-func hx(b []byte) string {
-	if len(b) == 0 {
-		return "-"
-	}
-	return hex.EncodeToString(b)
-}
 
 func genKey(r *lib.RNG) []byte {
 	n := r.Intn(4)
